@@ -289,7 +289,7 @@ func (ssf *serverSessionFormat) writePacketRTP(pkt *rtp.Packet, ntp time.Time) e
 
 	maxPlainPacketSize := ssf.ssm.ss.s.MaxPacketSize
 	if ssf.ssm.srtpOutCtx != nil {
-		maxPlainPacketSize -= srtpOverhead
+		maxPlainPacketSize -= srtpOverhead + len(ssf.ssm.srtpOutCtx.mki)
 	}
 
 	plain := make([]byte, maxPlainPacketSize)
